@@ -12,7 +12,8 @@ CATS = {"tensor": opcat_tensor.REG, "nn": opcat_nn.REG}
 
 
 def enumerate_specs(tier):
-    specs = []
+    specs = [{"sequence": ["float64", "float32"]}, {"sequence": ["float32", "float64"]},
+             {"sequence": ["float64", "float32", "float64"]}]
     for cname, reg in CATS.items():
         for name, od in reg.items():
             if "C10" not in od.props:
@@ -34,7 +35,38 @@ def enumerate_specs(tier):
     return specs
 
 
+class Sequence:
+    """dtype facts over a *sequence* of calls in one process: nothing may be remembered from operations on tensors of the
+    other floating type (constants, buffers, caches)"""
+    prop = PROP
+
+    def __init__(self, order):
+        self.order = order
+        self.sig = "sequence:" + "-then-".join(order)
+
+    def run(self, env):
+        import synapgrad
+        from ..harness import T
+        from ..symnum import engine as E
+        import numpy as np
+        Tn = T()
+        out = E.Outcome()
+        for dt in self.order:
+            x = Tn(env.arr("x_" + dt, (2,), np.dtype(dt)), requires_grad=True)
+            y = Tn(env.arr("y_" + dt, (2,), np.dtype(dt)))
+            forms = {"x * 2.5": x * 2.5, "0.1 + x": 0.1 + x, "x - y": x - y, "-x": -x, "3 - x": 3 - x, "x / 2": x / 2, "1 / (y*y + 1)": 1 / (y * y + 1),
+                     "x ** 2": x ** 2, "2 ** x": 2 ** x, "x.sum()": x.sum(), "x.mean()": x.mean(), "x[0]": x[0], "(x*y).max()": (x * y).max()}
+            for nm, r in forms.items():
+                out.fact("%s on %s operands is %s (%s first)" % (nm, dt, dt, self.order[0]), str(r.dtype) == dt, "got %s" % r.dtype)
+            loss = (x * y).sum()
+            loss.backward()
+            out.fact("grad of a %s tensor is %s (%s first)" % (dt, dt, self.order[0]), str(x.grad.dtype) == dt and tuple(x.grad.shape) == (2,))
+        return out
+
+
 def build(spec):
+    if "sequence" in spec:
+        return Sequence(spec["sequence"])
     return OpCase(PROP, CATS[spec["cat"]][spec["op"]], spec["args"], spec.get("variant"))
 
 
